@@ -104,8 +104,9 @@ Theorem C14_x_config : forall x, xaccept x = true ->
 Proof. exact xaccept_accept. Qed.
 Print Assumptions C14_x_config.
 
-(* instantiation: the memory starts at exactly the declared minimum, empty, well formed; it fails (Go panic, nothing
-   registered) exactly when an allocator refuses a non-empty minimum *)
+(* instantiation: the memory starts at exactly the declared minimum, empty, well formed; there is no usable memory
+   exactly when an allocator refuses the minimum (Go panic, nothing registered), except that an unshared empty
+   minimum survives a refusal (nil[:0]); see the note at xinit for shared + Reallocate(0) = nil *)
 Theorem C14_x_init : forall x m, wf_cfg (x_c x) -> xaccept x = true -> xinit x = Some m ->
   wf m /\ xwf (x_shared x) m /\ pages m = c_min (x_c x) /\ m_max m = pages_bound (x_c x) /\
   m_min m = c_min (x_c x) /\ m_data m = [].
@@ -113,7 +114,7 @@ Proof. exact xinit_wf. Qed.
 Print Assumptions C14_x_init.
 
 Theorem C14_x_init_fails_exactly : forall x, xinit x = None <->
-  c_alloc (x_c x) = true /\ x_min_ans x = false /\ m_len (mem_init (x_c x)) <> 0.
+  c_alloc (x_c x) = true /\ x_min_ans x = false /\ (m_len (mem_init (x_c x)) <> 0 \/ x_shared x = true).
 Proof. exact xinit_none. Qed.
 Print Assumptions C14_x_init_fails_exactly.
 
